@@ -135,6 +135,13 @@ def run(ctx):
     # bridges from the private interpreters of C03/C05/C08/C10 to Sem / SemQ
     ctx.props("C04_bridges")
     # the end-to-end chain C05 -> C03 -> C04 (eval_prog ... SemQ.qrun on the assembled flattened lowering)
+    ok_gen, err_gen = ctx.gen("asm_tables.py", "Gen_Asm.v")   # C03's translator: the regenerated assembler parameters
+    ctx.gen_obligation("translator asm_tables.py understands the source", ok_gen, err_gen.strip()[-300:])
+    if ok_gen:
+        r_gen = ctx.coqc("Gen_Asm.v")
+        ctx.gen_obligation("Gen_Asm.v type-checks", r_gen.ok, r_gen.err[-300:])
+        ctx.trusted.append("gen/asm_tables.py (reads _REPLACE_CONSTANTS_EXCEPTION, REG_INDEX_BITS, RegisterName): the "
+                           "assembler parameters at which C05_end_to_end is stated")
     ctx.props("C05_end_to_end")
     quick = ctx.tier == "quick"
     if not quick:
@@ -236,7 +243,7 @@ def coqchk(ctx):
     import vlib
     mods = ["NQ.Proofs.ExecProofs", "NQ.Proofs.Bridge_Asm", "NQ.Proofs.Bridge_AsmChain", "NQ.Proofs.Bridge_Nv",
             "NQ.Proofs.Bridge_Sdk", "NQ.Proofs.Bridge_Epr", "NQ.Proofs.Bridge_AsmQ", "NQ.Proofs.Bridge_SdkAsm",
-            "NQ.Proofs.Bridge_E2E"]
+            "NQ.Proofs.Bridge_E2E", "NQ.Proofs.Bridge_E2E_H1"]
     r = subprocess.run(["timeout", "2400", "coqchk", "-silent", "-o", "-Q", vlib.COQ, "NQ"] + mods,
                        capture_output=True, text=True)
     out = r.stdout + r.stderr
